@@ -654,6 +654,46 @@ func (s *scope) interpretOps(obj pyObject, ops []OpExpression) pyObject {
 	})
 }
 
+// objectsEqual implements == on two objects. Lists and dicts are compared by their contents, so that a frozen
+// list or dict (one imported from a subinclude) equals an ordinary one holding the same values.
+func objectsEqual(a, b pyObject) bool {
+	if l, ok := a.(pyFrozenList); ok {
+		a = l.pyList
+	} else if d, ok := a.(pyFrozenDict); ok {
+		a = d.pyDict
+	}
+	if l, ok := b.(pyFrozenList); ok {
+		b = l.pyList
+	} else if d, ok := b.(pyFrozenDict); ok {
+		b = d.pyDict
+	}
+	switch x := a.(type) {
+	case pyList:
+		y, ok := b.(pyList)
+		if !ok || len(x) != len(y) {
+			return false
+		}
+		for i := range x {
+			if !objectsEqual(x[i], y[i]) {
+				return false
+			}
+		}
+		return true
+	case pyDict:
+		y, ok := b.(pyDict)
+		if !ok || len(x) != len(y) {
+			return false
+		}
+		for k, v := range x {
+			if w, present := y[k]; !present || !objectsEqual(v, w) {
+				return false
+			}
+		}
+		return true
+	}
+	return reflect.DeepEqual(a, b)
+}
+
 func (s *scope) interpretOp(obj pyObject, op OpExpression) pyObject {
 	switch op.Op {
 	case And, Or:
@@ -665,9 +705,9 @@ func (s *scope) interpretOp(obj pyObject, op OpExpression) pyObject {
 	case Not:
 		return s.negate(obj)
 	case Equal:
-		return newPyBool(reflect.DeepEqual(obj, s.interpretExpression(op.Expr)))
+		return newPyBool(objectsEqual(obj, s.interpretExpression(op.Expr)))
 	case NotEqual:
-		return newPyBool(!reflect.DeepEqual(obj, s.interpretExpression(op.Expr)))
+		return newPyBool(!objectsEqual(obj, s.interpretExpression(op.Expr)))
 	case Is:
 		return s.interpretIs(obj, op)
 	case IsNot:
